@@ -175,11 +175,12 @@ theorem index_int_shape (bs : Shape) (i : Int) (R : IndexResult) (h : index bs [
     simp [hshape, outShape, kinds, kinds_map_full, outDims]
 
 /-- `td[i]` with a bare int -/
-theorem indexTensordict_int_ok (td : TD) (i : Int) (R : IndexResult) (hnames : td.names = none)
+theorem indexTensordict_int_ok (td : TD) (i : Int) (R : IndexResult)
+    (hnm : ∃ nm, namesIdx td.names td.bs.length (.single (.int i)) = .ok nm)
     (h : index td.bs [Ix.int i] = .ok R) :
     ∃ res, indexTensordict td (.single (.int i)) = .ok res ∧ GoodRes td R res := by
   obtain ⟨hne, hshape⟩ := index_int_shape td.bs i R h
-  refine indexTensordict_ok_gen td (.single (.int i)) R (by simp [PyIndex.items]) ⟨none, by simp [namesIdx, hnames]⟩ ?_ ?_ h
+  refine indexTensordict_ok_gen td (.single (.int i)) R (by simp [PyIndex.items]) hnm ?_ ?_ h
   · intro extra
     have : td.bs ++ extra ≠ [] := by cases hb : td.bs <;> simp_all
     simp [checkInvalidIndex, this]
